@@ -21,6 +21,7 @@ type c13Case struct {
 	Scripts map[string]string `json:"scripts"`
 	Main    string            `json:"main"`
 	Second  map[string]string `json:"second_set,omitempty"` // two-deployments part: the set loaded afterwards
+	Polls   int               `json:"polls,omitempty"`
 }
 
 func c13Point() PointSpec {
@@ -155,7 +156,10 @@ func usesScript(stmts []*rt.Node, name string) bool {
 }
 
 func c13Exec(w *run.Worker, part string, scripts map[string][]*rt.Node) {
-	p := &Prog{Scripts: scripts, Main: "a.p", Point: c13Point()}
+	c13ExecP(w, part, &Prog{Scripts: scripts, Main: "a.p", Point: c13Point()})
+}
+
+func c13ExecP(w *run.Worker, part string, p *Prog) {
 	w.Eval()
 	v := Differential(p)
 	w.Outcome(v.Outcome)
@@ -163,7 +167,7 @@ func c13Exec(w *run.Worker, part string, scripts map[string][]*rt.Node) {
 		w.Note("unspecified_cells_skipped", 1)
 		return
 	}
-	mk := func() c13Case { return c13Case{Scripts: p.Sources(), Main: "a.p"} }
+	mk := func() c13Case { return c13Case{Scripts: p.Sources(), Main: "a.p", Polls: p.Polls} }
 	if !v.OK {
 		w.Violate("C13:"+part+":"+v.Key, v.What+"\n"+fmtScripts(p.Sources()), mk())
 		return
@@ -229,6 +233,7 @@ func fmtScripts(m map[string]string) string {
 }
 
 func c13Run(w *run.Worker) {
+	c13Many(w)
 	I, Id := rt.Int, rt.Id
 	ea := c13Enum(1, []string{"b.p", "c.p"})
 	eb := c13Enum(2, []string{"c.p"})
@@ -422,6 +427,98 @@ func c13Run(w *run.Worker) {
 	}
 }
 
+// c13Many: (1) callees without statements (a comment, blank lines, a lone semicolon): use() runs their zero
+// statements and resumes the caller; (2) use() executed many times in one run (loops of 17..300 rounds, nested
+// loops through two levels): every execution runs the callee and resumes the caller, the count of earlier calls
+// changes nothing; (3) chains of 5..40 scripts, each using the next, with a plain end, exit() or a failing
+// statement at the deepest level (the error chain then has one entry per level).
+func c13Many(w *run.Worker) {
+	I, Id, S := rt.Int, rt.Id, rt.Str
+	use := func(n string) *rt.Node { return rt.Call("use", S(n)) }
+	tail := func() *rt.Node { return rt.Call("p", I(9), Id("x"), Id("k")) }
+	for _, empty := range []string{"# reserved for site specific rules\n", "\n\n", ";", "\n# a\n\n# b", " \t\n"} {
+		for shape := 0; shape < 5; shape++ {
+			if !w.Take() {
+				continue
+			}
+			p := &Prog{Main: "a.p", Point: c13Point(), SrcOverride: map[string]string{}}
+			body := func() []*rt.Node {
+				return []*rt.Node{rt.Assign("=", Id("x"), I(4)), rt.Call("add_key", Id("k"), Id("x")), rt.Call("p", I(3), Id("x"))}
+			}
+			switch shape {
+			case 0: // a -> b(empty)
+				p.Scripts = map[string][]*rt.Node{"a.p": {rt.Call("p", I(1)), use("b.p"), tail()}, "b.p": nil}
+				p.SrcOverride["b.p"] = empty
+			case 1: // a -> b -> c(empty)
+				p.Scripts = map[string][]*rt.Node{"a.p": {rt.Call("p", I(1)), use("b.p"), tail()}, "b.p": append(body(), use("c.p"), tail()), "c.p": nil}
+				p.SrcOverride["c.p"] = empty
+			case 2: // a -> b(empty), a -> c
+				p.Scripts = map[string][]*rt.Node{"a.p": {use("b.p"), use("c.p"), use("b.p"), tail()}, "b.p": nil, "c.p": body()}
+				p.SrcOverride["b.p"] = empty
+			case 3: // inside a loop
+				p.Scripts = map[string][]*rt.Node{"a.p": {rt.ForIn("i", rt.List(I(1), I(2)), rt.Block(use("b.p"), rt.Call("p", I(2), Id("i")))), tail()}, "b.p": nil}
+				p.SrcOverride["b.p"] = empty
+			case 4: // the entry script itself has no statements, an unused sibling has none either
+				p.Scripts = map[string][]*rt.Node{"a.p": nil, "b.p": nil}
+				p.SrcOverride["a.p"], p.SrcOverride["b.p"] = empty, empty
+			}
+			c13ExecP(w, "statement-less-script", p)
+		}
+	}
+	for _, n := range []int64{16, 17, 33, 70, 300} {
+		for shape := 0; shape < 4; shape++ {
+			if !w.Take() {
+				continue
+			}
+			p := &Prog{Main: "a.p", Point: c13Point(), Polls: 40000}
+			loop := func(v string, n int64, body ...*rt.Node) *rt.Node {
+				return rt.For(rt.Assign("=", Id(v), I(0)), rt.Bin("<", Id(v), I(n)), rt.Assign("=", Id(v), rt.Bin("+", Id(v), I(1))), rt.Block(body...))
+			}
+			switch shape {
+			case 0: // one level, many rounds
+				p.Scripts = map[string][]*rt.Node{"a.p": {loop("i", n, use("b.p")), rt.Call("p", I(1), Id("i")), tail()}, "b.p": {rt.Call("p", I(2))}}
+			case 1: // the callee uses a third script every time
+				p.Scripts = map[string][]*rt.Node{"a.p": {loop("i", n, use("b.p")), rt.Call("p", I(1), Id("i")), tail()}, "b.p": {use("c.p"), rt.Call("p", I(2))}, "c.p": {rt.Call("p", I(3))}}
+			case 2: // nested loops over two levels (rounds split between the levels)
+				m := int64(3)
+				for m*m < n {
+					m++
+				}
+				p.Scripts = map[string][]*rt.Node{"a.p": {loop("i", m, use("b.p")), rt.Call("p", I(1), Id("i")), tail()}, "b.p": {loop("j", m, use("c.p")), rt.Call("p", I(2), Id("j"))}, "c.p": {rt.Call("p", I(3))}}
+			case 3: // the many calls happen in a sibling before the one that matters
+				p.Scripts = map[string][]*rt.Node{"a.p": {use("b.p"), use("c.p"), tail()}, "b.p": {loop("j", n, use("c.p"))}, "c.p": {rt.Call("p", I(3)), rt.Call("add_key", Id("k"), I(1))}}
+			}
+			c13ExecP(w, "many-use-calls", p)
+		}
+	}
+	for _, depth := range []int{5, 17, 40} {
+		for end := 0; end < 3; end++ {
+			if !w.Take() {
+				continue
+			}
+			p := &Prog{Main: "a.p", Point: c13Point(), Scripts: map[string][]*rt.Node{}}
+			name := func(i int) string {
+				if i == 0 {
+					return "a.p"
+				}
+				return fmt.Sprintf("s%d.p", i)
+			}
+			for i := 0; i < depth; i++ {
+				p.Scripts[name(i)] = []*rt.Node{rt.Call("p", I(int64(i))), use(name(i + 1)), rt.Call("p", I(int64(100+i)), Id("k"))}
+			}
+			last := []*rt.Node{rt.Call("add_key", Id("k"), I(int64(depth)))}
+			switch end {
+			case 1:
+				last = append(last, rt.Call("exit"), rt.Call("p", I(7)))
+			case 2:
+				last = append(last, rt.Call("p", rt.Bin("/", I(1), Id("z"))))
+			}
+			p.Scripts[name(depth)] = last
+			c13ExecP(w, "deep-chain", p)
+		}
+	}
+}
+
 func c13Replay(raw json.RawMessage) (bool, string) {
 	var c c13Case
 	if err := json.Unmarshal(raw, &c); err != nil {
@@ -439,13 +536,16 @@ func c13Replay(raw json.RawMessage) (bool, string) {
 		a, b := fmt.Sprint(alone.Trace, alone.Point, alone.Err), fmt.Sprint(after.Trace, after.Point, after.Err)
 		return a != b, "alone: " + a + "\nafter the second load: " + b
 	}
-	p := &Prog{Scripts: map[string][]*rt.Node{}, Main: c.Main, Point: c13Point()}
+	p := &Prog{Scripts: map[string][]*rt.Node{}, Main: c.Main, Point: c13Point(), Polls: c.Polls, SrcOverride: map[string]string{}}
 	for name, src := range c.Scripts {
 		tree, err := parseToTree(name, src)
 		if err != nil {
 			return false, err.Error()
 		}
 		p.Scripts[name] = tree
+		if len(tree) == 0 {
+			p.SrcOverride[name] = src
+		}
 	}
 	v := Differential(p)
 	if !v.OK {
@@ -463,6 +563,7 @@ func init() {
 		Level: "model_checking",
 		Rule: "scripts a.p (uses b.p, c.p), b.p (uses c.p), c.p: every body of total size <=3 / <=2 / <=1 statements (thorough 3/3/2) over {x=K, p(K,x,k), add_key(k,x), exit(), raise, use(child)} each optionally inside `if true {}` / `for i in [1,2] {}` / the else branch of `if true {} else {}` (not taken) / of `if false {} else {}` (taken), " +
 			"same variable and key names on every side, followed by a final probe; all reachable combinations; plus exit()/raise in each clause and at every body position of a three-clause for (post clause absent, an assignment, a probe, add_key, use()), directly and through use(); pure forwarder scripts (whole body = one use()); " +
+			"callees and entry scripts without statements (5 spellings x 5 shapes); use() executed 16..300 times in one run (one level, two levels, nested loops, in a sibling first); chains of 5/17/40 scripts ending plainly, in exit() or in a failing statement; " +
 			"oracle: probe trace, final point, error flag equal the reference (fresh scope per callee, shared point, exit local); on errors the position chain = failing statement, then every use site outward",
 		Assumptions: []string{"bodies of scripts that are not reachable are replaced by a trivial body (they cannot influence the run)"},
 		Run:            c13Run,
